@@ -297,6 +297,33 @@ func checkInst(t *testing.T, c InstCase) (v harness.Verdict) {
 	if len(adds) != wantAdds {
 		v.Failf("add-endpoints", "%s log exposes submission endpoints %v, want %d of them", kindOfLog(l), adds, wantAdds)
 	}
+	// the endpoints that exist must answer a POST (an empty chain is a bad request, not "no such method")
+	for _, p := range adds {
+		func() {
+			defer func() {
+				if r := recover(); r != nil {
+					v.Failf("add-endpoint-panic", "POST %s panicked: %v", p, r)
+				}
+			}()
+			req := httptest.NewRequest(http.MethodPost, "http://log.example/ct/v1/add-chain", strings.NewReader(`{"chain":[]}`))
+			w := httptest.NewRecorder()
+			inst.Handlers[p].ServeHTTP(w, req)
+			if wantAdds == 0 && w.Code != http.StatusMethodNotAllowed && w.Code != http.StatusNotFound {
+				v.Failf("add-endpoints", "%s log answers POST %s with %d", kindOfLog(l), p, w.Code)
+			}
+			if wantAdds == 2 && w.Code != http.StatusBadRequest {
+				v.Failf("add-endpoint-unusable", "POST %s with an empty chain answered %d, want 400", p, w.Code)
+			}
+		}()
+	}
+	switch {
+	case strings.HasSuffix(l.Prefix, "/"):
+		v.Class("prefix:trailing-slash")
+	case strings.HasPrefix(l.Prefix, "/"):
+		v.Class("prefix:leading-slash")
+	default:
+		v.Class("prefix:bare")
+	}
 	sthPaths := handlersBySuffix(inst.Handlers, "/ct/v1/get-sth")
 	if len(sthPaths) != 1 {
 		v.Failf("no-get-sth", "instance has get-sth handlers %v", sthPaths)
